@@ -209,3 +209,91 @@ Proof.
   split; [exact F3|]. split; [exact P1|]. split; [exact P2|]. split; [exact S1|].
   apply S2; reflexivity.
 Qed.
+
+(* ---------------- single-statement forms used by Props/C01.v and Props/C15.v ---------------- *)
+
+Lemma compete_false_opf :
+  forall (zero top : Z) (n : nat) (w : nat -> nat -> Z) (nd0 : @nodes Z),
+    let isproto q := nth q (n_status nd0) false = true in
+    (zero < top)%Z ->
+    (forall p q, p < n -> q < n -> p <> q -> (zero <= w p q < top)%Z) ->
+    length (n_cost nd0) = n -> length (n_pred nd0) = n -> length (n_label nd0) = n ->
+    length (n_plabel nd0) = n -> n_order nd0 = [] ->
+    (exists s, s < n /\ isproto s) ->
+    let nd := compete Z.ltb zero top false n w nd0 in
+    let cost q := nth q (n_cost nd) zero in
+    let pred q := nth q (n_pred nd) None in
+    let plabel q := nth q (n_plabel nd) 0 in
+    Permutation (n_order nd) (seq 0 n) /\
+    (forall i j, i < j -> j < n ->
+       (cost (nth i (n_order nd) 0%nat) <= cost (nth j (n_order nd) 0%nat))%Z) /\
+    (forall q, q < n -> isproto q ->
+       pred q = None /\ cost q = zero /\ plabel q = nth q (n_label nd0) 0) /\
+    (forall q, q < n -> ~ isproto q ->
+       exists p, pred q = Some p /\ p < n /\ p <> q /\ cost q = Z.max (cost p) (w p q) /\
+         plabel q = plabel p /\ before (n_order nd) p q) /\
+    (forall q, q < n ->
+       exists r k, r < n /\ isproto r /\ reaches pred q r k /\ pred r = None /\ k < n /\
+         plabel q = nth r (n_label nd0) 0) /\
+    (forall q s pi, q < n -> s < n -> isproto s -> path_from_to n s q pi ->
+       (cost q <= pathmax w zero pi)%Z) /\
+    (forall q, q < n -> exists s pi, s < n /\ isproto s /\ path_from_to n s q pi /\
+       pathmax w zero pi = cost q) /\
+    n_status nd = n_status nd0 /\ n_label nd = n_label nd0.
+Proof.
+  intros zero top n w nd0 isproto Hzt Hw L1 L2 L3 L4 L5 Hproto nd cost pred plabel.
+  pose proof (compete_order zero top n w false nd0 Hzt Hw L1 L2 L3 L4 L5 Hproto) as (O1 & O2).
+  pose proof (compete_forest zero top n w false nd0 Hzt Hw L1 L2 L3 L4 L5 Hproto) as (F1 & F2 & F3).
+  pose proof (compete_optimal zero top n w false nd0 Hzt Hw L1 L2 L3 L4 L5 Hproto) as (P1 & P2).
+  pose proof (compete_status_label zero top n w false nd0 Hzt Hw L1 L2 L3 L4 L5 Hproto)
+    as (S1 & S2 & _).
+  split; [exact O1|]. split; [exact O2|]. split; [exact F1|]. split; [exact F2|].
+  split; [exact F3|]. split; [exact P1|]. split; [exact P2|]. split; [exact S1|].
+  apply S2; reflexivity.
+Qed.
+
+Lemma compete_true_opf :
+  forall (zero top : Z) (n : nat) (w : nat -> nat -> Z) (nd0 : @nodes Z),
+    let isproto q := nth q (n_status nd0) false = true in
+    (zero < top)%Z ->
+    (forall p q, p < n -> q < n -> p <> q -> (zero <= w p q < top)%Z) ->
+    length (n_cost nd0) = n -> length (n_pred nd0) = n -> length (n_label nd0) = n ->
+    length (n_plabel nd0) = n -> n_order nd0 = [] ->
+    (exists s, s < n /\ isproto s) ->
+    let nd := compete Z.ltb zero top true n w nd0 in
+    let cost q := nth q (n_cost nd) zero in
+    let pred q := nth q (n_pred nd) None in
+    let plabel q := nth q (n_plabel nd) 0 in
+    let label q := nth q (n_label nd) 0 in
+    Permutation (n_order nd) (seq 0 n) /\
+    (forall i j, i < j -> j < n ->
+       (cost (nth i (n_order nd) 0%nat) <= cost (nth j (n_order nd) 0%nat))%Z) /\
+    (forall q, q < n -> isproto q ->
+       pred q = None /\ cost q = zero /\ plabel q = nth q (n_label nd0) 0 /\
+       label q = nth q (n_label nd0) 0) /\
+    (forall q, q < n -> ~ isproto q ->
+       exists p, pred q = Some p /\ p < n /\ p <> q /\ cost q = Z.max (cost p) (w p q) /\
+         plabel q = plabel p /\ before (n_order nd) p q) /\
+    (forall q, q < n ->
+       exists r k, r < n /\ isproto r /\ reaches pred q r k /\ pred r = None /\ k < n /\
+         plabel q = nth r (n_label nd0) 0 /\ label q = nth r (n_label nd0) 0) /\
+    (forall q s pi, q < n -> s < n -> isproto s -> path_from_to n s q pi ->
+       (cost q <= pathmax w zero pi)%Z) /\
+    (forall q, q < n -> exists s pi, s < n /\ isproto s /\ path_from_to n s q pi /\
+       pathmax w zero pi = cost q) /\
+    n_status nd = n_status nd0.
+Proof.
+  intros zero top n w nd0 isproto Hzt Hw L1 L2 L3 L4 L5 Hproto nd cost pred plabel label.
+  pose proof (compete_order zero top n w true nd0 Hzt Hw L1 L2 L3 L4 L5 Hproto) as (O1 & O2).
+  pose proof (compete_forest zero top n w true nd0 Hzt Hw L1 L2 L3 L4 L5 Hproto) as (F1 & F2 & F3).
+  pose proof (compete_optimal zero top n w true nd0 Hzt Hw L1 L2 L3 L4 L5 Hproto) as (P1 & P2).
+  pose proof (compete_status_label zero top n w true nd0 Hzt Hw L1 L2 L3 L4 L5 Hproto)
+    as (S1 & _ & S3).
+  specialize (S3 eq_refl).
+  split; [exact O1|]. split; [exact O2|]. split; [|split; [exact F2|split; [|split; [exact P1|split; [exact P2|exact S1]]]]].
+  - intros q Hq Hpr. destruct (F1 q Hq Hpr) as (X1 & X2 & X3).
+    split; [exact X1|]. split; [exact X2|]. split; [exact X3|]. apply (S3 q Hq); exact Hpr.
+  - intros q Hq. destruct (F3 q Hq) as (r & k & R1 & R2 & R3 & R4 & R5 & R6).
+    exists r, k. split; [exact R1|]. split; [exact R2|]. split; [exact R3|]. split; [exact R4|].
+    split; [exact R5|]. split; [exact R6|]. unfold label, nd. rewrite (proj1 (S3 q Hq)). exact R6.
+Qed.
